@@ -149,6 +149,12 @@ DRIVERS = {
                         describe="random builder call sequences with arbitrary Unicode arguments, build(), and the parse of the printed form"),
     "big": dict(trace="Trace_Stateless", quick=1, thorough=1,
                 describe="structured inputs of 64 KiB, 256 KiB and 1 MiB (long components, many segments / qualifiers / separators / escapes)"),
+    "type-strings": dict(trace="Trace_Stateless", quick=3000, thorough=200000,
+                         describe="case variants of the seven names, mutated, with inserted / substituted look-alikes, concatenated, and garbage -> PackageType::from_str"),
+    "combined": dict(trace="Trace_Stateless", quick=2500, thorough=100000,
+                     describe="combined names from pieces {a b / : @ . e-acute %2F space x/y g:a} x seven types: constructor, build, combined_name and back"),
+    "pairs": dict(trace="Trace_Stateless", quick=2000, thorough=100000, extra=CORPUS,
+                  describe="pairs of parsed values: a re-spelling of the same value, a one-mutation neighbour, or another pool value; ==, hash, cmp both ways, strings"),
     "qual-ops": dict(trace="Trace_Qual", quick=4000, thorough=150000,
                      describe="random sequences of 30 kinds of public calls on one live Qualifiers value, arbitrary keys and values"),
     "checksum-ops": dict(trace="Trace_Checksum", quick=800, thorough=15000, procs=dict(quick=4, thorough=32),
@@ -170,14 +176,14 @@ PROPS = {
     "C10": dict(suites=PARSE_ALL + ["BUILDER-G", "BUILDER-T", "FORMAT-1", "TYPES-NAMES", "CHECKSUM", "SYSTEM-G", "SYSTEM-T"], drivers=["scalars", "corpus"]),
     "C11": dict(suites=["QUAL", "QUAL-SIM"], drivers=["qual-ops"]),
     "C12": dict(suites=["CHECKSUM", "BUILDER-G", "PARSE-QUAL", "SPELL"], drivers=["checksum-ops", "corpus"]),
-    "C13": dict(suites=["TYPES-STR", "PARSE-SEP", "PARSE-PATH", "SPELL", "BUILDER-G", "BUILDER-SIM-G", "FORMAT-1"], drivers=[]),
+    "C13": dict(suites=["TYPES-STR", "PARSE-SEP", "PARSE-PATH", "SPELL", "BUILDER-G", "BUILDER-SIM-G", "FORMAT-1"], drivers=["garbage", "corpus", "builder-ops"]),
     "C14": dict(suites=["SHAPES"], drivers=[]),
-    "C15": dict(suites=["TYPES-LOOKUP", "PARSE-TYPED"], drivers=[]),
-    "C16": dict(suites=["PARSE-SEP", "PARSE-PATH", "PARSE-QUAL", "PARSE-TYPED", "SPELL", "FAULT", "FORMAT-1", "FORMAT-2", "BUILDER-G", "BUILDER-T", "TYPES-LOOKUP"], drivers=[]),
+    "C15": dict(suites=["TYPES-LOOKUP", "PARSE-TYPED"], drivers=["type-strings"]),
+    "C16": dict(suites=["PARSE-SEP", "PARSE-PATH", "PARSE-QUAL", "PARSE-TYPED", "SPELL", "FAULT", "FORMAT-1", "FORMAT-2", "BUILDER-G", "BUILDER-T", "TYPES-LOOKUP"], drivers=["garbage", "corpus"]),
     "C17": dict(suites=[], drivers=[], extra="c17",
                 assumptions=["feature sets are compile-time: the harness is compiled once per set; TLC supplies the common case stream and validates the zipped transcripts, it does not enumerate configurations"]),
-    "C18": dict(suites=["TYPES-COMB"], drivers=[]),
-    "C19": dict(suites=["VALUES", "PARSE-QUAL", "PARSE-QUALS2", "FORMAT-1", "QUAL"], drivers=[]),
+    "C18": dict(suites=["TYPES-COMB"], drivers=["combined"]),
+    "C19": dict(suites=["VALUES", "PARSE-QUAL", "PARSE-QUALS2", "FORMAT-1", "QUAL"], drivers=["pairs"]),
 }
 
 ASSUMPTIONS_COMMON = [
